@@ -217,17 +217,37 @@ impl Subcommand {
       chooser
     };
 
-    let result = justfile
-      .settings
-      .shell_command(config)
+    let mut command = justfile.settings.shell_command(config);
+
+    command
       .arg(&chooser)
       .current_dir(&search.working_directory)
       .stdin(Stdio::piped())
-      .stdout(Stdio::piped())
-      .spawn();
+      .stdout(Stdio::piped());
 
-    let mut child = match result {
-      Ok(child) => child,
+    // the chooser is run like every other command: just waits for it and
+    // forwards SIGTERM to it
+    let started = std::cell::Cell::new(false);
+
+    let (result, caught) = SignalHandler::spawn(command, |mut child| {
+      started.set(true);
+
+      let stdin = child.stdin.as_mut().unwrap();
+      for recipe in &recipes {
+        if let Err(io_error) = writeln!(stdin, "{}", recipe.namepath.spaced()) {
+          if io_error.kind() != std::io::ErrorKind::BrokenPipe {
+            return Ok(Err(io_error));
+          }
+        }
+      }
+
+      child.wait_with_output().map(Ok)
+    });
+
+    let output = match result {
+      Ok(Ok(output)) => output,
+      Ok(Err(io_error)) => return Err(Error::ChooserWrite { io_error, chooser }),
+      Err(io_error) if started.get() => return Err(Error::ChooserRead { io_error, chooser }),
       Err(io_error) => {
         let (shell_binary, shell_arguments) = justfile.settings.shell(config);
         return Err(Error::ChooserInvoke {
@@ -239,27 +259,15 @@ impl Subcommand {
       }
     };
 
-    let stdin = child.stdin.as_mut().unwrap();
-    for recipe in recipes {
-      if let Err(io_error) = writeln!(stdin, "{}", recipe.namepath.spaced()) {
-        if io_error.kind() != std::io::ErrorKind::BrokenPipe {
-          return Err(Error::ChooserWrite { io_error, chooser });
-        }
-      }
-    }
-
-    let output = match child.wait_with_output() {
-      Ok(output) => output,
-      Err(io_error) => {
-        return Err(Error::ChooserRead { io_error, chooser });
-      }
-    };
-
     if !output.status.success() {
       return Err(Error::ChooserStatus {
         status: output.status,
         chooser,
       });
+    }
+
+    if let Some(signal) = caught {
+      return Err(Error::Interrupted { signal });
     }
 
     let stdout = String::from_utf8_lossy(&output.stdout);
@@ -294,18 +302,25 @@ impl Subcommand {
       .or_else(|| env::var_os("EDITOR"))
       .unwrap_or_else(|| "vim".into());
 
-    let error = Command::new(&editor)
-      .current_dir(&search.working_directory)
-      .arg(&search.justfile)
-      .status();
+    let mut command = Command::new(&editor);
 
-    let status = match error {
+    command
+      .current_dir(&search.working_directory)
+      .arg(&search.justfile);
+
+    let (result, caught) = command.status_guard();
+
+    let status = match result {
       Err(io_error) => return Err(Error::EditorInvoke { editor, io_error }),
       Ok(status) => status,
     };
 
     if !status.success() {
       return Err(Error::EditorStatus { editor, status });
+    }
+
+    if let Some(signal) = caught {
+      return Err(Error::Interrupted { signal });
     }
 
     Ok(())
